@@ -212,6 +212,42 @@ def run(ck: Check):
                     ck.violation(f"diff_test: both runs time out after printing {oa!r} / {ob!r} ({'log files' if mode else 'in memory'}): "
                                  f"got {got}, documented meaning {oa != ob}",
                                  {"module": "diff_test", "timeout": "both", "stdout_a": oa, "stdout_b": ob, "files": mode is not None})
+        # the exit STATUS: a run ended by signal N is different from a run that exits with N, with 128+N (what a shell
+        # would report) or with 256-N, and equal only to another run ended by signal N - for every terminating signal,
+        # and exit codes around 0 / 127 / 128 / 255
+        sigchild = os.path.join(work, "sigchild.py")
+        with open(sigchild, "w") as f:
+            f.write("#!" + PY + "\nimport sys,os,signal\nspec = sys.argv[2] if sys.argv[1] == 'A' else sys.argv[3]\n"
+                    "sys.stdout.write('same\\n'); sys.stdout.flush()\n"
+                    "if spec[0] == 's':\n    signal.signal(int(spec[1:]), signal.SIG_DFL); os.kill(os.getpid(), int(spec[1:]))\n"
+                    "    import time; time.sleep(5)\nos._exit(int(spec[1:]))\n")
+        os.chmod(sigchild, 0o755)
+        sjobs = []
+        for n in (1, 2, 3, 6, 9, 11, 13, 14, 15):
+            for other in (f"e{128 + n}", f"e{n}", f"e{256 - n}", f"s{n}", f"s{15 if n != 15 else 9}", "e0"):
+                sjobs.append((f"s{n}", other))
+        for a_, b_ in (("e0", "e0"), ("e0", "e1"), ("e127", "e128"), ("e255", "e255"), ("e254", "e255"), ("e128", "e128")):
+            sjobs.append((a_, b_))
+        if quick:
+            sjobs = sjobs[::2] + [("s9", "e137"), ("s15", "e143"), ("s11", "e139")]
+
+        def do_sig(job):
+            (a_, b_), mode = job
+            try:
+                return diff_test.interesting(["-t", "20", "-a", "A", "-b", "B", sigchild, a_, b_],
+                                             os.path.join(work, f"sig-{a_}-{b_}") if mode else None)
+            except BaseException as exc:  # pylint: disable=broad-except
+                return "raised " + type(exc).__name__
+        sj = [(j, m) for j in sjobs for m in (False, True)]
+        with ThreadPoolExecutor(8) as ex:
+            sres = list(ex.map(do_sig, sj))
+        for ((a_, b_), mode), got in zip(sj, sres):
+            ck.count("diff_test")
+            ck.nontrivial(("diff-status", a_, b_, mode))
+            if got is not (a_ != b_):
+                ck.violation(f"diff_test: run A ends '{a_}', run B ends '{b_}' (s = killed by that signal, e = exit code), same output "
+                             f"({'log files' if mode else 'in memory'}): got {got}, documented meaning {a_ != b_}",
+                             {"module": "diff_test", "a_ends": a_, "b_ends": b_, "files": mode})
         # the two runs are two real EXECUTIONS, however alike their command lines: a program that behaves differently from
         # one execution to the next (intermittent, stateful) under -a/-b spellings that expand to the same arguments
         flaky = os.path.join(work, "flaky.py")
